@@ -752,7 +752,7 @@ def renderCmd : Cmd → Env → ROut
   | .headerParam .., env => .val ([], env)
   | .namespace .., _ => .unspec
   | .template .., _ => .unspec
-  | .soyDoc .., _ => .unspec
+  | .soyDoc .., env => .val ([], env)      -- a /** */ comment inside a body is a comment
 /-- a block: what it binds is visible inside only -/
 def renderBlock : Block → Env → Out Bytes
   | .mk _ cmds, env => renderCmds cmds env
